@@ -284,6 +284,16 @@ def r15_4(run):
     run.ob("R15.4", loc(ip, stmts[0] if stmts else ip.node), ip.short, "[TRACK_GRAPH=F] in-place update writes straight into self.data and does nothing else", ok,
            "only reachable statement: return self._op(..., out=self.data)" if ok else
            "untracked in-place update builds placeholder graphs or targets another array")
+    if stmts and isinstance(stmts[0], ast.Return) and isinstance(stmts[0].value, ast.Call):
+        c = stmts[0].value
+        a_ = ip.node.args
+        opp = a_.args[1].arg
+        fw = {k.arg: norm(k.value) for k in c.keywords if k.arg}
+        okf = c.args and norm(c.args[0]) == opp and any(isinstance(x, ast.Starred) and norm(x.value) == (a_.vararg.arg if a_.vararg else "") for x in c.args) \
+            and all(fw.get(k) == k for k in ("op_args", "op_kwargs", "constant"))
+        run.ob("R15.4", loc(ip, c), ip.short, "[TRACK_GRAPH=F] the untracked in-place path forwards op, operands, op_args, op_kwargs and constant", bool(okf),
+               f"self._op({opp}, *operands, op_args=op_args, op_kwargs=op_kwargs, constant=constant, out=self.data)" if okf else
+               f"forwarded keywords {fw}: options such as where=/axis=/dtype= are silently ignored for out=<Tensor> inside no_autodiff")
     # backward
     bw = anchor_func(run, f"{TENSOR}.backward")
     cfg = build_cfg(run, bw, switch_assumptions(bw, track=False))
@@ -388,6 +398,19 @@ def r15_6(run):
         glob = any(isinstance(g, ast.Global) and "MEM_GUARD" in g.names for g in own_nodes(f.node))
         ok = glob and len(st) == 1 and isinstance(st[0].value, ast.Constant) and st[0].value.value is v
         run.ob("R15.6", loc(f, f.node), f.short, f"{fn} assigns the process-wide default {v}", ok, f"global MEM_GUARD; MEM_GUARD = {v}" if ok else "wrong / local assignment")
+    # the process-wide defaults are booleans on every path of module initialisation (the state setters reject anything else on restore)
+    from ..cfg import CFG, reaching_defs as _rd
+    for modn, sw in (("mygrad._utils.lock_management", "MEM_GUARD"), ("mygrad._utils.graph_tracking", "TRACK_GRAPH")):
+        mod = run.project.module(modn)
+        mcfg = CFG(mod.tree)
+        defs = _rd(mcfg, sw, EXIT)
+        vals = [getattr(mcfg.stmt[d], "value", None) if d != ENTRY else None for d in defs]
+        ok = bool(vals) and all(isinstance(v, ast.Constant) and isinstance(v.value, bool) for v in vals)
+        run.ob("R15.6", loc(mod, mod.symbols[sw].node) if sw in mod.symbols and mod.symbols[sw].node is not None else modn, modn[7:],
+               f"module initialisation leaves {sw} a literal bool on every path", ok,
+               f"{len(vals)} reaching definition(s) at the end of the module, all True/False" if ok else
+               f"{sw} can be left as {[norm(v) if v is not None else 'undefined' for v in vals]}: a scope saves that non-bool value and its exit fails to restore it "
+               f"(the setter raises TypeError), leaving the scope's setting in force process-wide")
     # the module-level singletons are instances of the right classes
     for modn, name, cls in (("mygrad._utils.graph_tracking", "no_autodiff", "_NoAutoDiff"), ("mygrad._utils.lock_management", "mem_guard_off", "_NoMemGuard"),
                             ("mygrad._utils.lock_management", "mem_guard_on", "_WithMemGuard")):
